@@ -14,6 +14,7 @@ Reading guide
                        implicit timezone), the caller's objects persisting from step to step.
 -/
 import EPV.Lemmas.ScopeMain
+import EPV.Lemmas.ScopeFuel
 namespace EPV.C05
 open EPV.Scope
 
@@ -85,6 +86,16 @@ theorem outer_variable_restored (c : Cfg) (hq : c.q.callCopies = true) (n : Nat)
   rw [eval]
   simp only [hB]
   simp [eval, hx]
+
+/-- The depth bound `n` is harmless: a successful evaluation gives the same result, the same
+dict and the same objects at every larger bound; hence any two bounds that succeed agree. -/
+theorem eval_fuel_independent (c : Cfg) (n m : Nat) (e : Expr) (ρ : Env) (h : Heap)
+    (r r' : Val × Env × Heap) (hn : eval c n e ρ h = .ok r) (hm : eval c m e ρ h = .ok r') : r = r' := by
+  rcases Nat.le_total n m with hle | hle
+  · have := eval_fuel_le c hle e ρ h r hn
+    rw [hm] at this; cases this; rfl
+  · have := eval_fuel_le c hle e ρ h r' hm
+    rw [hn] at this; cases this; rfl
 
 /-- PARTIAL (known finding F05c): on every program whose inline function bodies are closed in the
 scope where they are DEFINED (`WS true (dom ρ) e`; references outside function bodies are not
